@@ -58,7 +58,7 @@ ScanInit(b) == buf = b /\ i = 1 /\ result = Running
 SkipByte == /\ result = Running /\ i <= Len(buf) /\ buf[i] # Preamble
             /\ i' = i + 1 /\ UNCHANGED <<buf, result>>
 Reject   == /\ result = Running /\ i <= Len(buf) /\ buf[i] = Preamble
-            /\ "notvalid" \in Admissible(Rest(buf, i)) /\ St(buf, i) = "notvalid"
+            /\ St(buf, i) = "notvalid"
             /\ i' = i + 1 /\ UNCHANGED <<buf, result>>          \* NotValid => continue
 Stop     == /\ result = Running /\ i <= Len(buf) /\ buf[i] = Preamble
             /\ St(buf, i) = "incomplete"
